@@ -31,7 +31,7 @@ Proj(o) == [fmt |-> o.fmt, codes |-> o.codes, cfg |-> o.cfg, st |-> o.st]
 \* which property a deviation of the TARGET's value/format belongs to, by the kind of call
 ValueProp(a) == CASE a.act \in {"New", "Store", "SetItem"} -> "C01"
                   [] a.act \in {"Resize", "CtorLike", "Like", "LikeShallow", "Assign", "DeepCopy", "CopyShallow"} -> "C10"
-                  [] a.act = "BinOp" -> "C07" [] a.act = "Neg" -> "C08" [] a.act = "RShiftKeep" -> "C14" [] a.act = "Invert" -> "C13"
+                  [] a.act = "BinOp" -> "C07" [] a.act = "BinOpOut" -> "C08" [] a.act = "Neg" -> "C08" [] a.act = "RShiftKeep" -> "C14" [] a.act = "Invert" -> "C13"
                   [] OTHER -> "C20"
 \* compare one object; returns TRUE iff it agrees (prints the first differing field otherwise)
 AgreeObj(e, x, exp, got, isTarget) ==
@@ -62,7 +62,9 @@ WellFormedObs(e, x, got) ==
        /\ Chk(N!DEq(dy(got.wf.lo), val(N!Lo(t))), e, i, "C02", "lower")
        /\ Chk(N!DEq(dy(got.wf.pr), val(1)), e, i, "C02", "precision")
        /\ Chk(got.wf.dt = N!FxpString(t, FALSE), e, i, "C02", "dtype")
-       /\ Chk(got.ext = (t.w >= 64), e, i, "C18", "extended_prec"))
+       /\ Chk(got.ext = (t.w >= 64), e, i, "C18", "extended_prec")
+       \* the status record stays complete (reset() clears three flags and leaves the rest usable)
+       /\ Chk(got.stkeys = <<"extended_prec", "inaccuracy", "overflow", "underflow">>, e, i, "C04", "status-record"))
 Judge(e, S1) ==
    LET tgt == Sys!Target(e.a) IN
    /\ \A x \in ObjS : AgreeObj(e, x, S1.objs[x], e.obs[x], x = tgt)
